@@ -125,9 +125,15 @@ def _atoms(e: ast.expr) -> List[ast.expr]:
     return [e]
 
 
+# facets compared as bags; 'conds', 'ext' and 'kwnames' are collected for the evidence but not compared: they are purely
+# syntactic and differ under behaviour-preserving one-sided refactors (an `if` statement instead of a conditional expression,
+# len(x) > 0 instead of truthiness); the semantic content of conditions is compared through the TWIN-FACTS records instead
+COMPARED = ('raises', 'catches', 'error_ctors', 'ctor_consts', 'callees', 'self_attrs', 'returns', 'asserts')
+
+
 def diff_bags(a: Dict[str, Counter], b: Dict[str, Counter], allow: Dict[str, Counter]) -> List[str]:
     out = []
-    for k in a:
+    for k in COMPARED:
         da = a[k] - b[k]
         db = b[k] - a[k] - allow.get(k, Counter())
         da = da - allow.get(k, Counter())
